@@ -173,8 +173,8 @@ def main():
     res = ck.step_generate('Gen_C08', TARGETS)
     if res is not None:
         ck.step_prove('P_C08')
-    n = 3000 if ck.thorough() else 120
-    goals = run_cases(ck, res, n, 40 if ck.thorough() else 8)
+    n = 15000 if ck.thorough() else 120
+    goals = run_cases(ck, res, n, 100 if ck.thorough() else 8)
     if res is not None:
         ck.step_interval_goals('corr', goals)
     if ck.broken and not ck.failures:
